@@ -91,6 +91,24 @@ impl Stats {
     }
 }
 
+/// `pattern` is a signature with optional `*` wildcards; a pattern starting with ':' matches
+/// as a suffix (signatures are prefixed by the tag of the check that found the failure).
+pub fn sig_matches(pattern: &str, sig: &str) -> bool {
+    fn glob(p: &[u8], s: &[u8]) -> bool {
+        match (p.first(), s.first()) {
+            (None, None) => true,
+            (Some(b'*'), _) => glob(&p[1..], s) || (!s.is_empty() && glob(p, &s[1..])),
+            (Some(a), Some(b)) if a == b => glob(&p[1..], &s[1..]),
+            _ => false,
+        }
+    }
+    if pattern.starts_with(':') {
+        glob(format!("*{}", pattern).as_bytes(), sig.as_bytes())
+    } else {
+        glob(pattern.as_bytes(), sig.as_bytes())
+    }
+}
+
 pub fn hash_str(s: &str) -> u64 {
     // FNV-1a
     let mut h: u64 = 0xcbf29ce484222325;
@@ -195,9 +213,25 @@ impl Ctx {
         self.known.iter().find(|k| {
             k.status == "known"
                 && !k.sig.is_empty()
-                && k.sig == f.sig
+                && sig_matches(&k.sig, &f.sig)
                 && k.detail_contains.iter().all(|d| f.detail.contains(d))
         })
+    }
+
+    /// Development aid (VERIF_DUMP_KNOWN=1): save the first case that matched a known finding
+    /// which has no replay file yet, so that it can be committed as that finding's replay.
+    pub fn dump_known_case<V: Serialize>(&self, k: &KnownFinding, sub: &str, value: &V, f: &Failure) {
+        if std::env::var("VERIF_DUMP_KNOWN").is_err() || !k.replay.is_empty() {
+            return;
+        }
+        let dir = self.verif_dir.join("replays").join(&self.prop).join("new");
+        let _ = std::fs::create_dir_all(&dir);
+        let path = dir.join(format!("{}-known-{}.json", sub, k.id));
+        if path.exists() {
+            return;
+        }
+        let body = serde_json::json!({"property": self.prop, "sub": sub, "sig": f.sig, "detail": f.detail, "seed": self.seed, "case": value});
+        let _ = std::fs::write(&path, serde_json::to_string_pretty(&body).unwrap());
     }
 
     pub fn note_known_hit(&self, id: &str) {
@@ -229,6 +263,11 @@ impl Ctx {
     }
 
     pub fn known_finding_line(&self, k: &KnownFinding) {
+        // a finding attributed to another property is tolerated here and reported by that
+        // property's own check
+        if k.property != self.prop {
+            return;
+        }
         let line = format!("KNOWN-FINDING: property={} {} [{}]", k.property, k.what, k.id);
         let mut g = self.known_lines.lock().unwrap();
         if !g.contains(&line) {
@@ -328,7 +367,8 @@ where
             let test = &test;
             let results = &results;
             let stop = &stop;
-            scope.spawn(move || {
+            // generous stacks: the reference interpreter's values are dropped recursively
+            std::thread::Builder::new().stack_size(512 << 20).spawn_scoped(scope, move || {
                 let strategy = make_strategy();
                 let mut seed_bytes = [0u8; 32];
                 let h = hash_str(&format!("{}:{}:{}:{}", ctx.prop, sub, ctx.seed, ti));
@@ -386,7 +426,7 @@ where
                         std::process::exit(2);
                     }
                 }
-            });
+            }).expect("spawn driver thread");
         }
     });
     results.into_inner().unwrap()
